@@ -36,8 +36,8 @@ TEXT = {
          BASE + "auto_chunks uses x**(1/k) and medians: bounded only.", T),
  "C17": ("moved_fraction is proved in [0,1], 0 for identical layouts and 0 for pure splits from the real loops (with termination). The merging walk of common_blockdim is proved as a fragment for two and three non-trivial layouts: same total, positive blocks, every boundary of every input kept (the layout only splits). common_blockdim's prologue and unify_chunks_expr (one common layout, refine only splits, no growth beyond the limit, values) are bounded stand-ins over policies and limits.",
          BASE + "unify_chunks_expr's cost logic is bounded only.", T),
- "C18": ("Bounded stand-in: 28 reducers (incl. central moments of order 3-5, ptp, count_nonzero, average, topk) over axes, keepdims, split_every and layouts equal NumPy; the reduction tree reaches one block (depth bound incl. the float logarithm) for n up to 2000 (quick) / 200000 blocks.",
-         "Not proved. Numerical associativity of combine functions is a fact about NumPy kernels.", TB),
+ "C18": ("Proved for all inputs (rank 1, keepdims): one partial-reduction layer with group size k leaves ceil(n/k) unit blocks on the reduced axis (PartialReduce.chunks), and the cascade built by _build_tree_reduce_expr -- depth-1 partial layers and the aggregate layer -- leaves exactly one block, given the depth bound k**depth >= n of the float logarithm (assumed there, validated by a bounded contract); nested-ceiling lemma proved. Bounded stand-in for the values: 28 reducers (incl. central moments of order 3-5, ptp, count_nonzero, average, topk) over axes, keepdims, split_every and layouts equal NumPy; the reduction tree reaches one block (depth bound incl. the float logarithm) for n up to 2000 (quick) / 200000 blocks.",
+         BASE + "The values (combine / aggregate kernels, numerical associativity) are bounded only; toolz.partition_all is modelled (validated against the library each run); the depth bound is assumed.", TB),
  "C19": ("ensure_minimum_chunksize is proved from the real loop for all inputs (total kept, every chunk >= size, or ValueError exactly when the axis is shorter). The guards supports_native_sliding_window / supports_native_moving_window and the banded plans SlidingWindowReduction._block_plan / MovingWindowReduction._block_plan (rows with None and range columns) are proved; for the sliding plan: under the guard, window t of block q is exactly the block's suffix from t, the whole middle blocks and the first band_offset+t+1 elements of the band blocks b..e. sliding_window_view alone and under reductions (windows larger than a block), overlap boundaries, diff, gradient and cumulative scans are bounded stand-ins against the NumPy definitions.",
          BASE + "The NumPy kernels fed by the plans, overlap and scans are bounded only.", T),
  "C20": ("The layout barrier ChunksFreeze.lower_once is proved on every path (frozen layout or raise) by record abstraction and _chunks_match is proved to be equality of block sizes; the block_info / block_id payload of map_blocks is a bounded stand-in over the catalogue including layout-drifting inputs.",
